@@ -156,6 +156,14 @@ func ctxLineage(p *Prog, v ssa.Value, param *ssa.Parameter, depth int) bool {
 
 func c15RequestContext(c *Ctx) {
 	p := c.P
+	c.Rule("R15j", "the worker answers in the body of a 200: what its client decodes (retryable, key usage) is never written under another status", 1)
+	for _, f := range workerAnswersInBody(p) {
+		c.Check(f.OK, "R15j", f.Key, f.Pos, "", f.Detail)
+	}
+	c.Rule("R15i", "a token-layer function that is given a context runs no step under a fresh background context, directly or through a context-less helper", 20)
+	for _, f := range callerContextHonoured(p) {
+		c.Check(f.OK, "R15i", f.Key, f.Pos, "", f.Detail)
+	}
 	c.Rule("R15h", "the worker client sends each operation under the caller's context or a child of it", 1)
 	fn := p.Func("token/worker.(*WorkerToken).request")
 	if fn == nil {
@@ -320,6 +328,12 @@ func c12Round3(c *Ctx) {
 		c.Check(uniq == 1 && direct == 0, "R12l", "atomicfile.New temporary file", p.Pos(fn.Pos()), "one TempFile/CreateTemp", fmt.Sprintf("the temporary file is opened under a predictable name (%d unique-name creations, %d direct opens): when the input, a sibling or a concurrent run already has that name, the rewrite truncates it and then copies from a file it has just emptied, so the result is not the patched original", uniq, direct))
 	}
 
+	c.Rule("R12n", "a stream read through a bufio.Reader is not also moved with a relative Seek that ignores what is buffered (module-wide)", 0)
+	for _, f := range bufferedAndPositioned(p) {
+		c.Check(f.OK, "R12n", f.Key, f.Pos, "", f.Detail)
+	}
+	c.runControl("R12n buffered and positioned control (ctl/bufseek.Skip)", "bufseek.Skip:", bufferedAndPositioned)
+
 	c.Rule("R12m", "ApplyBinPatch reports success only when PatchSet.Apply did", 1)
 	if fn := p.Func("signers.ApplyBinPatch"); fn == nil {
 		c.Undecided("R12m", "signers.ApplyBinPatch", "-", "function not found")
@@ -444,6 +458,14 @@ func c18Round3(c *Ctx) {
 		c.Undecided("R18h", "single-sector allocations", "-", "no makeFreeSectors(...)[k] found in lib/comdoc (writeShortSector had one)")
 	}
 
+	c.Rule("R18k", "ComDoc.Close sets the file length to the end of the last used sector on every path that found one (cut and pad), and never makes that depend on the file's present size", 2)
+	for _, f := range closePadsLastSector(p) {
+		c.Check(f.OK, "R18k", f.Key, f.Pos, "", f.Detail)
+	}
+	c.Rule("R18l", "both walks over an MSI storage hand on the storage's UID on every successful path", 2)
+	for _, f := range walkersEmitStorageID(p) {
+		c.Check(f.OK, "R18l", f.Key, f.Pos, "", f.Detail)
+	}
 	c.Rule("R18i", "the metadata member of the MSI tarball is digested on its own or skipped, never copied into the stream digest", 1)
 	if fn := p.Func("lib/authenticode.DigestMsiTar"); fn == nil {
 		c.Undecided("R18i", "authenticode.DigestMsiTar", "-", "function not found")
